@@ -66,6 +66,9 @@ def _free_and_stores(stmts):
       after_else = set(assigned)
       assigned.clear()
       assigned.update(after_body & after_else)
+    elif isinstance(node, ast.While) and isinstance(node.test, ast.Constant) and node.test.value is True:
+      for s in node.body:             # `while True:` runs its body at least once
+        visit(s)
     elif isinstance(node, ast.While):
       visit(node.test)
       before = set(assigned)
